@@ -14,7 +14,7 @@ def rule_token_init(repo, res, rule="TOKEN-INIT"):
     the argument is None.  The lexer builds every token as Token(lexeme, grammar=g, decoder=d); a token that takes
     its grammar elsewhere classifies comments, white space and delimiters by another dialect's tables."""
     from . import flow
-    init = repo.method("Token", "__init__")
+    init = repo.full("Token", "__init__")
     params = [a.arg for a in init.args.args]
     sc = flow.stmts_with_conds(init.body)
     for attr in ("grammar", "decoder"):
@@ -49,7 +49,7 @@ def _token_calls(stmts, repo=None, cls=None, depth=0):
         calls.sort(key=lambda n: (n.lineno, n.col_offset))
         for n in calls:
             if repo is not None and cls is not None and n.func.attr.startswith("_") and not n.func.attr.startswith("__") and depth < 4:
-                dc, h = repo.resolve_method(cls, n.func.attr)
+                dc, h = repo.full_resolved(cls, n.func.attr)
                 if h is not None:
                     out += _token_calls(h.body, repo, cls, depth + 1)
                     continue
@@ -64,20 +64,20 @@ def rule_hook_tail(repo, res):
     parse_around_equals call there -- otherwise the statement after a missing value is parsed by another grammar
     than every other statement (a ';' not consumed, a comment not skipped).  Private helpers are read in place."""
     from .inline import closure
-    pa = repo.method("PVLParser", "parse_assignment_statement")
+    pa = repo.full("PVLParser", "parse_assignment_statement")
     seq = _token_calls(pa.body, repo, "PVLParser")
     names = [n for n, _ in seq]
     if "parse_value" not in names or "parse_around_equals" not in names:
         raise AnalysisError("anchor vanished: parse_around_equals / parse_value calls of PVLParser.parse_assignment_statement")
     after_ref = seq[names.index("parse_value") + 1:]
-    ae = repo.method("PVLParser", "parse_around_equals")
+    ae = repo.full("PVLParser", "parse_around_equals")
     # what parse_around_equals does after the '=' is found: the calls that follow its `parse_WSC_until("=", tokens)` test
     aseq = _token_calls(ae.body, repo, "PVLParser")
     eq = [i for i, (n, a) in enumerate(aseq) if n == "parse_WSC_until" and a and a[0] in ("'='", '"="')]
     if not eq:
         raise AnalysisError("anchor vanished: parse_WSC_until('=', tokens) in PVLParser.parse_around_equals")
     before_ref = [x for x in aseq[eq[0] + 1:] if x[0] != "_peek" and not x[0].startswith("_")]
-    hook = repo.method("OmniParser", "parse_module_post_hook")
+    hook = repo.full("OmniParser", "parse_module_post_hook")
     # the try block (of the hook or of a private helper it calls) that re-reads a value
     tries = []
     for owner, f_ in closure(repo, "OmniParser", hook, module="parser"):
@@ -115,7 +115,7 @@ def rule_h3(repo, res, rule="H3"):
     lat = ExcLattice(repo)
     if "QuantityError" not in repo.modules["exceptions"].classes:
         raise AnalysisError("anchor vanished: exceptions.QuantityError")
-    dq = repo.method("PVLDecoder", "decode_quantity")
+    dq = repo.full("PVLDecoder", "decode_quantity")
     raised = [n for n in ast.walk(dq) if isinstance(n, ast.Raise) and n.exc is not None and "QuantityError" in norm(n.exc)]
     res.floor("raise QuantityError in PVLDecoder.decode_quantity", len(raised), 1)
     caught = set()
@@ -142,7 +142,7 @@ def rule_aggcls(repo, res, rule="H1"):
     """group keywords build the group class, object keywords the object class (C03: the kind of block in the tree;
     C18: the substitute container classes)"""
     from . import canon
-    repo.method("PVLParser", "aggregation_cls")
+    repo.full("PVLParser", "aggregation_cls")
     ac = canon.canon_method(repo, "PVLParser", "aggregation_cls")
     # each return of the function itself (not of a nested def) and the grammar tables its guards consult:
     # enclosing `if` tests and `for` iterables on the way to the return
@@ -205,7 +205,7 @@ def rule_h1(repo, res):
                                     where=f"pvl/{repo.classes[c].module.name}.py:{x.lineno}"))
     res.floor("decoder/parser methods scanned", n, 40)
     # the hooks are used where values are made
-    fn = repo.method("PVLDecoder", "decode_decimal")
+    fn = repo.full("PVLDecoder", "decode_decimal")
     calls = [x for x in ast.walk(fn) if isinstance(x, ast.Call) and norm(x.func) == "self.real_cls"]
     ok = len(calls) >= 1 and all(len(c.args) == 1 and norm(c.args[0]) in ("str(value)", "value") for c in calls)
     res.oblige("H1", "PVLDecoder.decode_decimal hands the token text (str(value)) unaltered to self.real_cls", ok=ok)
@@ -225,7 +225,7 @@ def rule_h1(repo, res):
     if not ok:
         res.add(Finding("H1", "PVLDecoder.decode_decimal", "int first", "decode_decimal no longer tries int() before real_cls",
                         where=f"pvl/decoder.py:{fn.lineno}"))
-    fn = repo.method("PVLDecoder", "decode_quantity")
+    fn = repo.full("PVLDecoder", "decode_quantity")
     ok = any(isinstance(x, ast.Call) and norm(x.func) == "self.quantity_cls" and len(x.args) == 2 and norm(x.args[0]) == "value"
              for x in ast.walk(fn))
     res.oblige("H1", "PVLDecoder.decode_quantity builds self.quantity_cls(value, str(unit))", ok=ok)
@@ -233,7 +233,7 @@ def rule_h1(repo, res):
         res.add(Finding("H1", "PVLDecoder.decode_quantity", "self.quantity_cls(value, …)", "decode_quantity no longer builds the "
                         "caller's quantity class from the decoded value", where=f"pvl/decoder.py:{fn.lineno}"))
     for attr, param in (("real_cls", "real_cls"), ("quantity_cls", "quantity_cls")):
-        init = repo.method("PVLDecoder", "__init__")
+        init = repo.full("PVLDecoder", "__init__")
         ok = any(isinstance(x, ast.Assign) and norm(x.targets[0]) == f"self.{attr}" and
                  any(isinstance(y, ast.Name) and y.id == param for y in ast.walk(x.value)) for x in ast.walk(init))
         res.oblige("H1", f"PVLDecoder.__init__ stores the {param} argument", ok=ok)
@@ -255,14 +255,14 @@ def rule_h1(repo, res):
             if not ok:
                 res.add(Finding("H1", f"{c}.__init__", f"forwards {hook}", f"{c}.__init__ accepts {hook} but does not forward it: "
                                 "the substitute class is silently ignored for this decoder", where=f"pvl/decoder.py:{init.lineno}"))
-    pm = repo.method("PVLParser", "parse_module")
+    pm = repo.full("PVLParser", "parse_module")
     ok = any(isinstance(x, ast.Call) and norm(x.func) == "self.modcls" for x in ast.walk(pm))
     res.oblige("H1", "PVLParser.parse_module builds self.modcls()", ok=ok)
     if not ok:
         res.add(Finding("H1", "PVLParser.parse_module", "self.modcls()", "parse_module no longer builds the caller's module class",
                         where=f"pvl/parser.py:{pm.lineno}"))
     rule_aggcls(repo, res)
-    init = repo.method("PVLParser", "__init__")
+    init = repo.full("PVLParser", "__init__")
     for attr, param in (("modcls", "module_class"), ("grpcls", "group_class"), ("objcls", "object_class")):
         ok = any(isinstance(x, ast.Assign) and norm(x.targets[0]) == f"self.{attr}" and
                  any(isinstance(y, ast.Name) and y.id == param for y in ast.walk(x.value)) for x in ast.walk(init))
@@ -271,13 +271,13 @@ def rule_h1(repo, res):
             res.add(Finding("H1", "PVLParser.__init__", f"self.{attr} = {param}", f"{param} is not stored as self.{attr}",
                             where=f"pvl/parser.py:{init.lineno}"))
     # nested values go through the same decoder: parse_value -> self.decoder.decode_simple_value; units -> decode_quantity
-    pv = repo.method("PVLParser", "parse_value")
+    pv = repo.full("PVLParser", "parse_value")
     ok = any(isinstance(x, ast.Call) and norm(x.func) == "self.decoder.decode_simple_value" for x in ast.walk(pv))
     res.oblige("H1", "PVLParser.parse_value decodes every simple value with self.decoder", ok=ok)
     if not ok:
         res.add(Finding("H1", "PVLParser.parse_value", "self.decoder.decode_simple_value", "parse_value no longer uses the "
                         "parser's decoder", where=f"pvl/parser.py:{pv.lineno}"))
-    pu = repo.method("PVLParser", "parse_units")
+    pu = repo.full("PVLParser", "parse_units")
     ok = any(isinstance(r, ast.Return) and norm(r.value).startswith("self.decoder.decode_quantity(value") for r in ast.walk(pu))
     res.oblige("H1", "PVLParser.parse_units returns self.decoder.decode_quantity(value, units)", ok=ok)
     if not ok:
@@ -314,7 +314,7 @@ def rule_h2(repo, res):
                                         f"{q} tests `{norm(ctx, 80)}` on a decoded value: with a substitute real-number class "
                                         "(e.g. Decimal) the value is not recognised as a number", where=f"pvl/{modname}.py:{x.lineno}"))
     # encoder numeric_types includes the decoder's real_cls
-    init = repo.method("PVLEncoder", "__init__")
+    init = repo.full("PVLEncoder", "__init__")
     nt = [x for x in ast.walk(init) if isinstance(x, ast.Assign) and norm(x.targets[0]) == "self.numeric_types"]
     ok = bool(nt) and "self.decoder.real_cls" in norm(nt[0].value)
     res.oblige("H2", "PVLEncoder.numeric_types includes self.decoder.real_cls", ok=ok)
@@ -448,7 +448,7 @@ def rule_v2(repo, res):
     mro = repo.mro("PVLGroupNew") if repo.has_cls("PVLGroupNew") else []
     related = "PVLGroup" in mro
     enc_default = None
-    init = repo.method("PVLEncoder", "__init__")
+    init = repo.full("PVLEncoder", "__init__")
     a = init.args
     names = [x.arg for x in a.args]
     for nm, d in zip(names[len(names) - len(a.defaults):], a.defaults):
@@ -505,7 +505,7 @@ def rule_v3(repo, res):
         if not ok:
             res.add(Finding("V3", sub, base, f"{sub} does not derive from {base}"))
     # PVLMultiDict.append adds (never replaces): self.add(key, value)
-    fn = repo.method("PVLMultiDict", "append")
+    fn = repo.full("PVLMultiDict", "append")
     ok = any(isinstance(n, ast.Call) and norm(n.func) == "self.add" and [norm(a) for a in n.args] == ["key", "value"] for n in ast.walk(fn))
     res.oblige("V3", "PVLMultiDict.append(key, value) is self.add(key, value) (duplicates kept, order kept)", ok=ok)
     if not ok:
@@ -516,42 +516,45 @@ def rule_v3(repo, res):
 # ------------------------------------------------------------------ C20
 def rule_tb9(repo, res):
     """formats / dialects dispatch tables."""
+    from . import ctor
     tr = repo.module("pvl_translate")
-    f = tr.assigns.get("formats")
-    if f is None or dict_entries(f) is None:
-        raise AnalysisError("anchor vanished: pvl_translate.formats")
+    fv = ctor.module_value(repo, "pvl_translate", "formats")
+    if not isinstance(fv, ctor.DictV):
+        raise AnalysisError("anchor vanished: pvl_translate.formats (not a table the module-level evaluation can build)")
     want = {"PDS3": "PDSLabelEncoder", "ODL": "ODLEncoder", "ISIS": "ISISEncoder", "PVL": "PVLEncoder"}
-    got = dict(dict_entries(f))
+    got = dict(fv.items)
+    fline = getattr(tr.assigns.get("formats"), "lineno", "?")
     for name, enc in want.items():
         v = got.get(name)
-        ok = isinstance(v, ast.Call) and norm(v.func) == "PVLWriter" and len(v.args) == 1 and isinstance(v.args[0], ast.Call) \
-            and norm(v.args[0].func) == enc and not v.args[0].args and not v.args[0].keywords
+        e_ = v.attrs.get("encoder") if isinstance(v, ctor.Inst) else None
+        ok = isinstance(v, ctor.Inst) and v.cls == "PVLWriter" and isinstance(e_, ctor.Inst) and e_.cls == enc \
+            and e_.ctor_args == ([], {})
         res.oblige("TB9", f"pvl_translate.formats[{name!r}] = PVLWriter({enc}())", ok=ok)
         if not ok:
-            res.add(Finding("TB9", "pvl_translate.formats", name, f"formats[{name!r}] is `{norm(v) if v is not None else None}`, "
+            res.add(Finding("TB9", "pvl_translate.formats", name, f"formats[{name!r}] is `{v!r}` with encoder `{e_!r}`, "
                             f"not PVLWriter({enc}()): `pvl_translate -of {name}` writes another dialect",
-                            where=f"pvl/pvl_translate.py:{f.lineno}"))
+                            where=f"pvl/pvl_translate.py:{fline}"))
     v = got.get("JSON")
-    ok = isinstance(v, ast.Call) and norm(v.func) == "JSONWriter"
+    ok = isinstance(v, ctor.Inst) and v.cls == "JSONWriter"
     res.oblige("TB9", "pvl_translate.formats['JSON'] = JSONWriter()", ok=ok)
     if not ok:
-        res.add(Finding("TB9", "pvl_translate.formats", "JSON", "formats['JSON'] is not JSONWriter()", where=f"pvl/pvl_translate.py:{f.lineno}"))
+        res.add(Finding("TB9", "pvl_translate.formats", "JSON", "formats['JSON'] is not JSONWriter()", where=f"pvl/pvl_translate.py:{fline}"))
     res.oblige("TB9", "pvl_translate.formats has exactly PDS3, ODL, ISIS, PVL, JSON", ok=set(got) == set(want) | {"JSON"})
     if set(got) != set(want) | {"JSON"}:
-        res.add(Finding("TB9", "pvl_translate.formats", "keys", f"formats has keys {sorted(got)}", where=f"pvl/pvl_translate.py:{f.lineno}"))
+        res.add(Finding("TB9", "pvl_translate.formats", "keys", f"formats has keys {sorted(got)}", where=f"pvl/pvl_translate.py:{fline}"))
     # writers
-    w = repo.method("PVLWriter", "dump")
+    w = repo.full("PVLWriter", "dump")
     ok = any(isinstance(r, ast.Return) and norm(r.value) == "pvl.dump(dictlike, outfile, encoder=self.encoder)" for r in ast.walk(w))
     res.oblige("F1", "PVLWriter.dump returns pvl.dump(dictlike, outfile, encoder=self.encoder)", ok=ok)
     if not ok:
         res.add(Finding("F1", "PVLWriter.dump", "pvl.dump(..., encoder=self.encoder)", "PVLWriter.dump no longer dumps with its "
                         "own encoder", where=f"pvl/pvl_translate.py:{w.lineno}"))
-    wi = repo.method("PVLWriter", "__init__")
+    wi = repo.full("PVLWriter", "__init__")
     ok = any(isinstance(n, ast.Assign) and norm(n) == "self.encoder = encoder" for n in ast.walk(wi))
     res.oblige("F1", "PVLWriter.__init__ stores its encoder", ok=ok)
     if not ok:
         res.add(Finding("F1", "PVLWriter.__init__", "self.encoder = encoder", "the encoder is not stored", where=f"pvl/pvl_translate.py:{wi.lineno}"))
-    j = repo.method("JSONWriter", "dump")
+    j = repo.full("JSONWriter", "dump")
     ok = any(isinstance(r, ast.Return) and norm(r.value) == "json.dump(dictlike, outfile)" for r in ast.walk(j))
     res.oblige("F1", "JSONWriter.dump returns json.dump(dictlike, outfile)", ok=ok)
     if not ok:
@@ -574,40 +577,34 @@ def rule_tb9(repo, res):
     res.oblige("F1", "pvl_translate: -of choices are the keys of formats", ok=ok)
     if not ok:
         res.add(Finding("F1", "pvl_translate.arg_parser", "choices", "the -of choices are no longer the keys of formats"))
-    # dialects rows
-    cfgs = tokproto.configs_from_repo(repo)
+    # dialects rows (as the module builds them: abstract evaluation of the module's top level)
     va = repo.module("pvl_validate")
-    inst = {}
-    for name, val in va.assigns.items():
-        if isinstance(val, ast.Call) and isinstance(val.func, ast.Name):
-            inst[name] = (val.func.id, {k.arg: norm(k.value) for k in val.keywords})
     want_rows = {"PDS3": ("ODLParser", "PDSGrammar", "PDSLabelDecoder", "PDSLabelEncoder"),
                  "ODL": ("ODLParser", "ODLGrammar", "ODLDecoder", "ODLEncoder"),
                  "PVL": ("PVLParser", "PVLGrammar", "PVLDecoder", "PVLEncoder"),
                  "ISIS": ("OmniParser", "ISISGrammar", "OmniDecoder", "ISISEncoder"),
                  "Omni": ("OmniParser", "OmniGrammar", "OmniDecoder", "PVLEncoder")}
-    d = va.assigns.get("dialects")
-    rows = dict(dict_entries(d) or []) if d is not None else {}
+    dv = ctor.module_value(repo, "pvl_validate", "dialects")
+    if not isinstance(dv, ctor.DictV):
+        raise AnalysisError("anchor vanished: pvl_validate.dialects (not a table the module-level evaluation can build)")
+    rows = dict(dv.items)
+    dline = getattr(va.assigns.get("dialects"), "lineno", "?")
     for rname, (pc, gc, dc, ec) in want_rows.items():
         row = rows.get(rname)
-        ok = isinstance(row, ast.Call)
-        detail = ""
+        ok = isinstance(row, ctor.DictV)
+        detail = repr(row)
         if ok:
-            kw = {k.arg: k.value for k in row.keywords}
-            gname = norm(kw.get("grammar")) if kw.get("grammar") is not None else None
-            dname = norm(kw.get("decoder")) if kw.get("decoder") is not None else None
-            ok = gname in inst and dname in inst and inst[gname][0] == gc and inst[dname][0] == dc and inst[dname][1].get("grammar") == gname
-            for part, cls in (("parser", pc), ("encoder", ec)):
-                v = kw.get(part)
-                okp = isinstance(v, ast.Call) and norm(v.func) == cls and {k.arg: norm(k.value) for k in v.keywords} == {"grammar": gname, "decoder": dname}
-                ok = ok and okp
-            detail = norm(row, 200)
+            p_, g_, d_, e_ = (row.get(k) for k in ("parser", "grammar", "decoder", "encoder"))
+            ok = all(isinstance(x, ctor.Inst) for x in (p_, g_, d_, e_)) and (p_.cls, g_.cls, d_.cls, e_.cls) == (pc, gc, dc, ec) \
+                and p_.attrs.get("grammar") is g_ and p_.attrs.get("decoder") is d_ \
+                and e_.attrs.get("grammar") is g_ and e_.attrs.get("decoder") is d_ and d_.attrs.get("grammar") is g_
+            detail = f"parser {p_!r}, grammar {g_!r}, decoder {d_!r}, encoder {e_!r}"
         res.oblige("TB9", f"pvl_validate.dialects[{rname!r}]: {pc}/{gc}/{dc}/{ec} sharing one grammar object and one decoder object", ok=ok)
         if not ok:
             res.add(Finding("TB9", "pvl_validate.dialects", rname,
                             f"dialects[{rname!r}] is not {pc}(grammar=g, decoder=d), grammar=g, decoder=d, {ec}(grammar=g, decoder=d) with "
                             f"g a {gc} and d a {dc}(grammar=g): the row validates another dialect ({detail})",
-                            where=f"pvl/pvl_validate.py:{getattr(d, 'lineno', '?')}"))
+                            where=f"pvl/pvl_validate.py:{dline}"))
     res.oblige("TB9", "pvl_validate.dialects has exactly the five rows", ok=set(rows) == set(want_rows))
     if set(rows) != set(want_rows):
         res.add(Finding("TB9", "pvl_validate.dialects", "rows", f"dialects has rows {sorted(rows)}"))
@@ -619,87 +616,73 @@ def rule_l1(repo, res):
     fn = va.functions.get("pvl_flavor")
     if fn is None:
         raise AnalysisError("anchor vanished: pvl_validate.pvl_flavor")
-    outer = [n for n in fn.body if isinstance(n, ast.Try)]
-    ok_shape = len(outer) == 1
-    res.oblige("L1", "pvl_flavor: one outer try around load and dump", ok=ok_shape)
-    if not ok_shape:
-        res.add(Finding("L1", "pvl_validate.pvl_flavor", "shape", "pvl_flavor no longer has the single outer try", where=f"pvl/pvl_validate.py:{fn.lineno}"))
-        return
-    t = outer[0]
-    body = t.body
-    # loads = True immediately follows the load call
-    idx_load = [i for i, s in enumerate(body) if isinstance(s, ast.Assign) and isinstance(s.value, ast.Call) and norm(s.value.func) == "pvl.loads"]
-    ok = bool(idx_load) and idx_load[0] + 1 < len(body) and norm(body[idx_load[0] + 1]) == "loads = True"
-    res.oblige("L1", "pvl_flavor: `loads = True` immediately follows pvl.loads(text, **decenc)", ok=ok)
-    if not ok:
-        res.add(Finding("L1", "pvl_validate.pvl_flavor", "loads = True", "`loads = True` does not immediately follow the load call: "
-                        "'loads' is reported without (or regardless of) a successful load", where=f"pvl/pvl_validate.py:{fn.lineno}"))
-    if idx_load:
-        call = body[idx_load[0]].value
-        okc = len(call.args) == 1 and norm(call.args[0]) == fn.args.args[0].arg and any(k.arg is None and norm(k.value) == "decenc" for k in call.keywords)
-        res.oblige("L1", "pvl_flavor: the load is pvl.loads(text, **decenc) (the row's parser, grammar, decoder)", ok=okc)
+    # the verdicts, by enumeration of outcomes (vsa.symx): which pair pvl_flavor returns for each combination of
+    # "pvl.loads / pvl.dumps returned or raised <class>", through its private helpers and whatever its try/except shape
+    from . import symx
+    from .inline import closure
+    X = symx.SymX(repo, "pvl_validate", lambda c: norm(c.func) in ("pvl.loads", "pvl.dumps"))
+    outs = X.run(fn)
+    cats = {"load failed": [], "load ok, dump ok": [], "load ok, dump failed": []}
+    for o in outs:
+        ev = [(e[0], e[1]) + tuple(e[2:3]) for e in o.events if e[0] in ("ok", "raises")]
+        lo = [e for e in ev if e[1] == "pvl.loads"]
+        du = [e for e in ev if e[1] == "pvl.dumps"]
+        if not lo or lo[0][0] == "raises":
+            cats["load failed"].append((o, f"pvl.loads raises {lo[0][2] if lo else '?'}"))
+        elif du and du[0][0] == "ok":
+            cats["load ok, dump ok"].append((o, "both succeed"))
+        elif du:
+            cats["load ok, dump failed"].append((o, f"pvl.dumps raises {du[0][2]}"))
+        else:
+            cats["load failed"].append((o, "pvl.dumps is never called after a successful load"))
+    want = {"load failed": ("tuple", False, None), "load ok, dump ok": ("tuple", True, True), "load ok, dump failed": ("tuple", True, False)}
+    F1_ = lambda what, msg: res.add(Finding("L1", "pvl_validate.pvl_flavor", what, msg, where=f"pvl/pvl_validate.py:{fn.lineno}"))
+    for cat, lst in cats.items():
+        res.floor(f"pvl_flavor outcomes: {cat}", len(lst), 1)
+        bad = [(o, why) for o, why in lst if o.kind != "return" or o.value != want[cat]]
+        res.oblige("L1", f"pvl_flavor: {cat} -> (loads, encodes) == {want[cat][1:]} on every such path ({len(lst)} paths)", ok=not bad)
+        seen_ = set()
+        for o, why in bad:
+            shown = "an exception escapes" if o.kind != "return" else \
+                ("returns " + (repr(o.value[1:]) if isinstance(o.value, tuple) and o.value[:1] == ("tuple",) else "a value that is not a constant pair"))
+            key_ = (cat, why if "OTHER" not in why else "another exception class", shown)
+            if key_ in seen_:
+                continue
+            seen_.add(key_)
+            F1_(f"{cat}: {key_[1]}", f"when {why.replace('$OTHER', 'an exception of another class')}, pvl_flavor {shown} instead of "
+                f"returning {want[cat][1:]}: the report says "
+                + ("'does NOT load' for a text that loaded" if cat != "load failed" and isinstance(o.value, tuple) and len(o.value) > 1 and o.value[1] is False
+                   else "something else than what happened") + " (or there is no report at all)")
+    # the calls themselves: the text is loaded with the row's configuration, and what was loaded is dumped with it
+    calls = {"pvl.loads": [], "pvl.dumps": []}
+    for owner, f_ in closure(repo, None, fn, module="pvl_validate"):
+        for c in ast.walk(f_):
+            if isinstance(c, ast.Call) and norm(c.func) in calls:
+                calls[norm(c.func)].append((f_, c))
+    for nm, lst in calls.items():
+        okc = len(lst) == 1 and len(lst[0][1].args) == 1 and isinstance(lst[0][1].args[0], ast.Name) \
+            and len(lst[0][1].keywords) == 1 and lst[0][1].keywords[0].arg is None
+        res.oblige("L1", f"pvl_flavor: one {nm}(<one argument>, **<the row>) call", ok=okc)
         if not okc:
-            res.add(Finding("L1", "pvl_validate.pvl_flavor", "pvl.loads(text, **decenc)", "the load call does not use the row's "
-                            "parser/grammar/decoder on the file's text", where=f"pvl/pvl_validate.py:{fn.lineno}"))
-    inner = [s for s in body if isinstance(s, ast.Try)]
-    ok = len(inner) == 1
-    if ok:
-        it = inner[0]
-        ib = it.body
-        idx = [i for i, s in enumerate(ib) if isinstance(s, ast.Expr) and isinstance(s.value, ast.Call) and norm(s.value.func) == "pvl.dumps"]
-        ok = bool(idx) and idx[0] + 1 < len(ib) and norm(ib[idx[0] + 1]) == "encodes = True"
-        if idx:
-            c = ib[idx[0]].value
-            okd = len(c.args) == 1 and any(k.arg is None and norm(k.value) == "decenc" for k in c.keywords)
-            loaded = norm(body[idx_load[0]].targets[0]) if idx_load else None
-            okd = okd and norm(c.args[0]) == loaded
-            res.oblige("L1", "pvl_flavor: the dump is pvl.dumps(<loaded module>, **decenc)", ok=okd)
-            if not okd:
-                res.add(Finding("L1", "pvl_validate.pvl_flavor", "pvl.dumps(some_pvl, **decenc)", "the dump call does not encode the "
-                                "loaded module with the row's encoder", where=f"pvl/pvl_validate.py:{fn.lineno}"))
-    res.oblige("L1", "pvl_flavor: `encodes = True` immediately follows pvl.dumps(...)", ok=ok)
-    if not ok:
-        res.add(Finding("L1", "pvl_validate.pvl_flavor", "encodes = True", "`encodes = True` does not immediately follow the dump call",
-                        where=f"pvl/pvl_validate.py:{fn.lineno}"))
-    if len(inner) == 1:
-        for h in inner[0].handlers:
-            sets = {norm(s.targets[0]): norm(s.value) for s in ast.walk(h) if isinstance(s, ast.Assign)}
-            from . import flow
-            ok = sets.get("encodes") == "False" and "loads" not in sets and flow.always_assigns(h.body, "encodes", "False")
-            res.oblige("L1", f"pvl_flavor: `except {norm(h.type) if h.type else '<bare>'}` round the dump sets encodes = False on every path and never loads", ok=ok)
-            if not ok:
-                res.add(Finding("L1", "pvl_validate.pvl_flavor", "dump handler", "a handler round the dump call assigns `loads` or "
-                                "does not set encodes = False: an encoding failure is reported as a loading failure (or success)",
-                                where=f"pvl/pvl_validate.py:{h.lineno}"))
-        caught = " ".join(norm(h.type) for h in inner[0].handlers if h.type is not None)
-        ok = "ValueError" in caught
-        res.oblige("L1", "pvl_flavor: the dump handler catches ValueError (what encoders raise to refuse)", ok=ok)
-        if not ok:
-            res.add(Finding("L1", "pvl_validate.pvl_flavor", "dump handler types", f"the dump handler catches only ({caught}): an "
-                            "encoder's refusal (ValueError) falls to the outer handler and is reported as 'does NOT load'",
-                            where=f"pvl/pvl_validate.py:{fn.lineno}"))
-    for h in t.handlers:
-        sets = {norm(s.targets[0]): norm(s.value) for s in ast.walk(h) if isinstance(s, ast.Assign)}
-        from . import flow
-        ok = sets.get("loads") == "False" and "encodes" not in sets and flow.always_assigns(h.body, "loads", "False")
-        res.oblige("L1", f"pvl_flavor: outer `except {norm(h.type) if h.type else '<bare>'}` sets loads = False on every path, and nothing else", ok=ok)
-        if not ok:
-            res.add(Finding("L1", "pvl_validate.pvl_flavor", "load handler", "an outer handler does not set loads = False on every path through it (or sets encodes): "
-                            "the verdict stays None and the report has no row for it",
-                            where=f"pvl/pvl_validate.py:{h.lineno}"))
-    has_bare = any(h.type is None or norm(h.type) in ("Exception", "BaseException") for h in t.handlers)
-    res.oblige("L1", "pvl_flavor: an outer catch-all makes a report for every file (non-pvl exceptions => does NOT load)", ok=has_bare)
-    if not has_bare:
-        res.add(Finding("L1", "pvl_validate.pvl_flavor", "catch-all", "pvl_flavor has no catch-all handler: an unexpected exception "
-                        "aborts the run instead of being reported", where=f"pvl/pvl_validate.py:{fn.lineno}"))
-    rets = [r for r in ast.walk(fn) if isinstance(r, ast.Return)]
-    ok = len(rets) == 1 and norm(rets[0].value) in ("(loads, encodes)", "loads, encodes") and isinstance(fn.body[-1], ast.Return)
-    res.oblige("L1", "pvl_flavor returns (loads, encodes) on every path", ok=ok)
-    if not ok:
-        res.add(Finding("L1", "pvl_validate.pvl_flavor", "return", "pvl_flavor does not return (loads, encodes) on every path",
-                        where=f"pvl/pvl_validate.py:{fn.lineno}"))
+            F1_(f"{nm} call", f"pvl_flavor no longer makes exactly one {nm}(x, **decenc) call with the row's parser/grammar/decoder/encoder")
+    if all(len(v) == 1 for v in calls.values()):
+        lf, lc = calls["pvl.loads"][0]
+        df, dc = calls["pvl.dumps"][0]
+        okt = lf is fn and norm(lc.args[0]) == fn.args.args[0].arg or lf is not fn
+        res.oblige("L1", "pvl_flavor: the load is pvl.loads(text, **decenc) (the row's parser, grammar, decoder)", ok=okt)
+        if not okt:
+            F1_("pvl.loads(text, **decenc)", "the load call does not use the file's text")
+        par = getattr(lc, "_parent", None)
+        loaded = norm(par.targets[0]) if isinstance(par, ast.Assign) else None
+        okd = loaded is not None and (norm(dc.args[0]) == loaded if df is lf else True)
+        res.oblige("L1", "pvl_flavor: the dump is pvl.dumps(<loaded module>, **decenc)", ok=okd)
+        if not okd:
+            F1_("pvl.dumps(some_pvl, **decenc)", "the dump call does not encode the loaded module with the row's encoder")
     # main: one append per file; report printed on every path
+    from .inline import uncomprehend, inline_all
     m = va.functions.get("main")
+    # read with private helpers in place and `[... for f in args.file]` written as the loop it abbreviates
+    m = inline_all(repo, None, uncomprehend(inline_all(repo, None, m, module="pvl_validate")), module="pvl_validate")
     loops = [n for n in m.body if isinstance(n, ast.For)]
     ok = len(loops) == 1 and norm(loops[0].iter) == "args.file" and \
         sum(1 for s in loops[0].body if isinstance(s, ast.Expr) and "results_list.append" in norm(s)) == 1
